@@ -35,6 +35,13 @@ func verifCanary(label string, cond bool) {}
 //@   ensures result != nil && fresh(result)
 //@   ensures ns == 0 && id == 0 ==> nodeStr(result) == "i=0"
 
+// NewExtensionObject(nil) builds the empty extension object used in response headers.
+//@ func NewExtensionObject
+//@   props C29 C32
+//@   assumed
+//@   assigns nothing
+//@   ensures result != nil && fresh(result)
+
 // ---------------------------------------------------------------------------
 // C24: policy names given as short names or URIs
 // ---------------------------------------------------------------------------
